@@ -10,6 +10,7 @@ import (
 	comlt "github.com/tuneinsight/lattigo/v6/circuits/common/lintrans"
 	"github.com/tuneinsight/lattigo/v6/core/rlwe"
 	"github.com/tuneinsight/lattigo/v6/ring"
+	"github.com/tuneinsight/lattigo/v6/schemes"
 	"github.com/tuneinsight/lattigo/v6/schemes/ckks"
 	"github.com/tuneinsight/lattigo/v6/utils/bignum"
 
@@ -26,6 +27,7 @@ type ckksCtx struct {
 	pk     *rlwe.PublicKey
 	ecd    *ckks.Encoder
 	dec    *rlwe.Decryptor
+	x      *xstate // extended cases only
 }
 
 type ckMat struct {
@@ -117,12 +119,19 @@ func runCKKS(c *eng.Ctx, cfg paramCfg) {
 	if cfg.Ring == "ci" {
 		rt = ring.ConjugateInvariant
 	}
-	params, err := ckks.NewParametersFromLiteral(ckks.ParametersLiteral{LogN: cfg.LogN, Q: cfg.Q, P: cfg.P, RingType: rt, LogDefaultScale: cfg.LogSc})
+	lit := ckks.ParametersLiteral{LogN: cfg.LogN, Q: cfg.Q, P: cfg.P, RingType: rt, LogDefaultScale: cfg.LogSc}
+	if cfg.X != nil {
+		lit.Xs, lit.Xe = cfg.X.dists(1 << cfg.LogN)
+	}
+	params, err := ckks.NewParametersFromLiteral(lit)
 	if err != nil {
 		c.Violate("C12|ckks.NewParametersFromLiteral|error-on-admissible", err.Error(), cfg)
 		return
 	}
 	k := &ckksCtx{c: c, cfg: cfg, params: params, ci: cfg.Ring == "ci"}
+	if cfg.X != nil {
+		k.x = &xstate{cfg: cfg.X}
+	}
 	k.kgen = rlwe.NewKeyGenerator(params)
 	k.sk, k.pk = k.kgen.GenKeyPairNew()
 	k.ecd = ckks.NewEncoder(params)
@@ -130,6 +139,9 @@ func runCKKS(c *eng.Ctx, cfg paramCfg) {
 	rnd := c.Rand()
 	for pi := 0; pi < cfg.NProg; pi++ {
 		k.program(rnd.Sub("prog", pi), pi)
+	}
+	if k.x != nil && cfg.X.Refusal {
+		k.refusals(rnd.Sub("refusals"))
 	}
 }
 
@@ -179,6 +191,10 @@ func (k *ckksCtx) program(r *eng.Rand, pi int) {
 	}
 	cols := 1 << logCols
 	p := samplePlan(r, pi, logCols, params.MaxLevel(), params.MaxLevelP(), params.N() >= 512, true, true)
+	if k.x != nil {
+		p = samplePlan(r.Sub("xplan"), pi, logCols, params.MaxLevel(), params.MaxLevelP(), params.N() >= 512, true, true, xModeTable...)
+		k.x.tweak(&p, r.Sub("x"), params.MaxLevel(), true)
+	}
 	vtype := eng.Pick(r, "complex128", "complex128", "bignum", "float64")
 	if vtype == "float64" && !k.ci {
 		vtype = "complex128"
@@ -251,6 +267,14 @@ func (k *ckksCtx) program(r *eng.Rand, pi int) {
 	var lgLT []int
 	for range p.lts {
 		lgLT = append(lgLT, eng.Pick(r, -1, -1, 30+r.N(21), k.cfg.LogSc)) // -1: the prime consumed by the next rescale (stock test idiom)
+	}
+
+	if k.x != nil && maxLevel == 0 {
+		// a single prime: the product of the two scales has to fit below it
+		lgCt = 28
+		for i := range lgLT {
+			lgLT[i] = 22
+		}
 	}
 
 	v := k.values(r, cols, eng.Pick(r, "uniform", "uniform", "extreme", "halfzero"))
@@ -342,6 +366,7 @@ func (k *ckksCtx) program(r *eng.Rand, pi int) {
 	if p.isNew() {
 		desc.OutLevel = -1
 	}
+	desc.X = p.x
 	for i, lt := range p.lts {
 		desc.LTs = append(desc.LTs, ltDesc{Diags: lt.lib, Kind: lt.kind, Val: lt.val, Ratio: lt.ratio, LevelQ: lt.levelQ, Scale: ltScales[i].Value.Text('g', 20), Perm: lt.perm, GalFrom: lt.galFrom})
 	}
@@ -349,6 +374,9 @@ func (k *ckksCtx) program(r *eng.Rand, pi int) {
 		c.Sample(desc)
 	}
 	ent := entry("ckks", p.mode)
+	if p.x != nil && p.x.Call == xCallDirect {
+		ent = directEntry(n1s[0])
+	}
 	fail := func(class, detail string) {
 		c.Violate(ent+"|"+class, detail+fmt.Sprintf("\nprogram=%+v", desc), desc)
 	}
@@ -357,6 +385,24 @@ func (k *ckksCtx) program(r *eng.Rand, pi int) {
 	for i := range lts {
 		var e error
 		ii := i
+		if p.x != nil && p.x.Decoy {
+			// the transformation is a used receiver: another matrix with the same diagonals is encoded first
+			rd := r.Sub("decoy", ii)
+			var e0 error
+			if !c.Try("C12|ckks/lintrans.Encode", func() {
+				d := cklt.Diagonals[complex128]{}
+				for kk := range libs[ii] {
+					d[kk] = k.values(rd, cols, "uniform")
+				}
+				e0 = cklt.Encode(k.ecd, d, lts[ii])
+			}) {
+				return
+			}
+			if e0 != nil {
+				c.Violate("C12|ckks/lintrans.Encode|error-on-admissible", fmt.Sprintf("%v\nprogram=%+v", e0, desc), desc)
+				return
+			}
+		}
 		if !c.Try("C12|ckks/lintrans.Encode", func() {
 			switch vtype {
 			case "bignum":
@@ -424,7 +470,16 @@ func (k *ckksCtx) program(r *eng.Rand, pi int) {
 	gks := k.kgen.GenGaloisKeysNew(galEls, k.sk, rlwe.EvaluationKeyParameters{LevelQ: &lq, LevelP: &lp})
 	evk := rlwe.NewMemEvaluationKeySet(nil, gks...)
 	ev := ckks.NewEvaluator(params, evk)
+	if p.x != nil {
+		ev = k.x.evaluator(c, r.Sub("xev"), p.x, rp, ev,
+			func() schemes.Evaluator { return ckks.NewEvaluator(params, nil) },
+			func(e schemes.Evaluator) schemes.Evaluator { return e.(*ckks.Evaluator).WithKey(evk) },
+			func(e schemes.Evaluator) schemes.Evaluator { return e.(*ckks.Evaluator).ShallowCopy() }).(*ckks.Evaluator)
+	}
 	lev := cklt.NewEvaluator(ev)
+	if p.x != nil && p.x.Literal {
+		lev = &cklt.Evaluator{Evaluator: comlt.Evaluator{Evaluator: ev}}
+	}
 	c.Count("galois_keys_generated", int64(len(galEls)))
 	c.Max("max_galois_keys_per_program", int64(len(galEls)))
 
@@ -456,14 +511,21 @@ func (k *ckksCtx) program(r *eng.Rand, pi int) {
 	ctSnap := ct.CopyNew()
 	moduli := params.Q()
 
-	var outs []*rlwe.Ciphertext
-	var cerr error
-	okc := c.Try(ent, func() {
+	deg := 1
+	if p.x != nil && p.x.RecvDeg2 {
+		deg = 2
+	}
+	var extras, extraSnaps []*rlwe.Ciphertext
+	call := func(ct *rlwe.Ciphertext) (outs []*rlwe.Ciphertext, cerr error) {
 		switch p.mode {
 		case mEval:
-			o := ckks.NewCiphertext(params, 1, p.outLevel)
+			o := ckks.NewCiphertext(params, deg, p.outLevel)
 			dirtyQ(r, o, moduli)
-			cerr = lev.Evaluate(ct, lts[0], o)
+			if p.x != nil && p.x.Call == xCallDirect {
+				cerr = directCall(lev.Evaluator, ct, comlt.LinearTransformation(lts[0]), o, p.x.Junk)
+			} else {
+				cerr = lev.Evaluate(ct, lts[0], o)
+			}
 			outs = []*rlwe.Ciphertext{o}
 		case mEvalIn:
 			cerr = lev.Evaluate(ct, lts[0], ct)
@@ -475,15 +537,32 @@ func (k *ckksCtx) program(r *eng.Rand, pi int) {
 		case mMany:
 			outs = make([]*rlwe.Ciphertext, len(lts))
 			for i := range outs {
-				outs[i] = ckks.NewCiphertext(params, 1, p.outLevel)
+				outs[i] = ckks.NewCiphertext(params, deg, p.outLevel)
 				dirtyQ(r, outs[i], moduli)
 			}
-			cerr = lev.EvaluateMany(ct, lts, outs)
+			if p.aliasLast {
+				outs[len(outs)-1] = ct
+			}
+			if p.x != nil && p.x.Call == xCallExtraRecv {
+				extras, extraSnaps = nil, nil
+				for i := 0; i < 2; i++ {
+					o := ckks.NewCiphertext(params, 1, p.outLevel)
+					dirtyQ(r, o, moduli)
+					extras = append(extras, o)
+					extraSnaps = append(extraSnaps, o.CopyNew())
+				}
+				cerr = lev.EvaluateMany(ct, lts, append(append([]*rlwe.Ciphertext(nil), outs...), extras...))
+			} else {
+				cerr = lev.EvaluateMany(ct, lts, outs)
+			}
 		case mManyNew:
 			outs, cerr = lev.EvaluateManyNew(ct, lts)
 		case mSeq:
-			o := ckks.NewCiphertext(params, 1, p.outLevel)
+			o := ckks.NewCiphertext(params, deg, p.outLevel)
 			dirtyQ(r, o, moduli)
+			if p.x != nil && p.x.Call == xCallSeqInPl {
+				o = ct
+			}
 			cerr = lev.EvaluateSequential(ct, lts, o)
 			outs = []*rlwe.Ciphertext{o}
 		case mSeqNew:
@@ -491,9 +570,24 @@ func (k *ckksCtx) program(r *eng.Rand, pi int) {
 			o, cerr = lev.EvaluateSequentialNew(ct, lts)
 			outs = []*rlwe.Ciphertext{o}
 		}
-	})
+		return
+	}
+	var outs []*rlwe.Ciphertext
+	var cerr error
+	trySig := ent
+	if p.levelP > params.MaxLevel() {
+		// triaged class of its own (see sigPAboveQ): computed from the program, never from the outcome
+		trySig = sigPAboveQ
+		c.Count("x_programs_levelP_above_max_levelQ", 1)
+	}
+	okc := c.Try(trySig, func() { outs, cerr = call(ct) })
 	c.Count("programs_"+p.mode, 1)
-	c.Distinct(p.key("ckks", k.cfg.Ring, k.cfg.LogN, n1s), p.nontrivial())
+	if p.x != nil {
+		c.Distinct(p.key("ckks", k.cfg.Ring, k.cfg.LogN, n1s)+"|"+p.x.key(), p.nontrivial())
+		xCoverage(c, p)
+	} else {
+		c.Distinct(p.key("ckks", k.cfg.Ring, k.cfg.LogN, n1s), p.nontrivial())
+	}
 	coverage(c, p, n1s, cols, rp)
 	if logCols < maxLogCols {
 		c.Count("programs_sparse_packing", 1)
@@ -507,8 +601,11 @@ func (k *ckksCtx) program(r *eng.Rand, pi int) {
 		fail(errClass(cerr), cerr.Error())
 		return
 	}
-	if p.mode != mEvalIn && !ct.Equal(ctSnap) {
+	if p.mode != mEvalIn && !(p.x != nil && p.x.inputAliased()) && !ct.Equal(ctSnap) {
 		fail("input-modified", "input ciphertext changed by the call")
+	}
+	if p.x != nil {
+		xAfterCall(c, ent, p, outs, extras, extraSnaps, func() ([]*rlwe.Ciphertext, error) { return call(ctSnap.CopyNew()) }, fail)
 	}
 
 	// expectations from the decrypted input
@@ -715,4 +812,88 @@ func dirtyQ(r *eng.Rand, ct *rlwe.Ciphertext, moduli []uint64) {
 			}
 		}
 	}
+}
+
+// refusals builds the objects of the refusal checks (refusals.go) for the approximate scheme.
+func (k *ckksCtx) refusals(r *eng.Rand) {
+	c := k.c
+	params := k.params
+	logCols := params.LogMaxDimensions().Cols
+	cols := 1 << logCols
+	levelP := params.MaxLevelP()
+	if levelP > params.MaxLevel() {
+		levelP = params.MaxLevel() // see sigPAboveQ
+	}
+	diags := refusalDiags(cols)
+	dims := ring.Dimensions{Rows: 0, Cols: logCols}
+	alloc := func(ratio, lp int) (lt cklt.LinearTransformation, ok bool) {
+		ok = c.Try("C12|ckks/lintrans.NewTransformation", func() {
+			lt = cklt.NewTransformation(params, cklt.Parameters{DiagonalsIndexList: append([]int(nil), diags...), LevelQ: params.MaxLevel(), LevelP: lp,
+				Scale: rlwe.NewScale(1 << 20), LogDimensions: dims, LogBabyStepGiantStepRatio: ratio})
+		})
+		return
+	}
+	naive, ok1 := alloc(-1, levelP)
+	bsgs, ok2 := alloc(0, levelP)
+	if !ok1 || !ok2 {
+		return
+	}
+	d := cklt.Diagonals[complex128]{}
+	for _, kk := range diags {
+		d[kk] = k.values(r, cols, "uniform")
+	}
+	for _, lt := range []cklt.LinearTransformation{naive, bsgs} {
+		var e error
+		l := lt
+		if !c.Try("C12|ckks/lintrans.Encode", func() { e = cklt.Encode(k.ecd, d, l) }) || e != nil {
+			return
+		}
+	}
+	env := &refEnv{c: c, pk: "ckks/lintrans", rp: params.GetRLWEParameters(), cols: cols, levelP: levelP,
+		naive: comlt.LinearTransformation(naive), bsgs: comlt.LinearTransformation(bsgs), keys: map[uint64]*rlwe.GaloisKey{},
+		desc: map[string]any{"scheme": "ckks", "ring": k.cfg.Ring, "logN": k.cfg.LogN, "diags": diags, "N1": bsgs.N1, "levelP": levelP}}
+	if levelP > 0 {
+		if low, ok := alloc(-1, levelP-1); ok {
+			l := comlt.LinearTransformation(low)
+			env.lowP = &l
+		}
+	}
+	var ges []uint64
+	if !c.Try("C12|lintrans.GaloisElements", func() { ges = append(naive.GaloisElements(params), bsgs.GaloisElements(params)...) }) {
+		return
+	}
+	for _, g := range ges {
+		if _, ok := env.keys[g]; !ok {
+			lq, lp := params.MaxLevel(), levelP
+			env.keys[g] = k.kgen.GenGaloisKeyNew(g, k.sk, rlwe.EvaluationKeyParameters{LevelQ: &lq, LevelP: &lp})
+		}
+	}
+	env.newCt = func() *rlwe.Ciphertext { return ckks.NewCiphertext(params, 1, params.MaxLevel()) }
+	pt := ckks.NewPlaintext(params, params.MaxLevel())
+	pt.Scale = rlwe.NewScale(1 << 30)
+	pt.LogDimensions = dims
+	if err := k.ecd.Encode(k.values(r, cols, "uniform"), pt); err != nil {
+		return
+	}
+	ct, err := rlwe.NewEncryptor(params, k.sk).EncryptNew(pt)
+	if err != nil {
+		return
+	}
+	env.ct = ct
+	env.mk = func(evk rlwe.EvaluationKeySet) refCalls {
+		lev := cklt.NewEvaluator(ckks.NewEvaluator(params, evk))
+		return refCalls{
+			evaluate: func(ct *rlwe.Ciphertext, lt comlt.LinearTransformation, out *rlwe.Ciphertext) error {
+				return lev.Evaluate(ct, cklt.LinearTransformation(lt), out)
+			},
+			many: func(ct *rlwe.Ciphertext, lts []comlt.LinearTransformation, outs []*rlwe.Ciphertext) error {
+				l := make([]cklt.LinearTransformation, len(lts))
+				for i := range lts {
+					l[i] = cklt.LinearTransformation(lts[i])
+				}
+				return lev.EvaluateMany(ct, l, outs)
+			},
+		}
+	}
+	env.run()
 }
